@@ -754,6 +754,8 @@ def run_thread(case):
         finally:
             programs.CURRENT_REC = None
         proc.add_cleanup(lambda: run.rec.ev('cleanup'))
+        proc.add_cleanup(run._release_one)
+        proc.add_cleanup(run._release_one)
         run.sample(0)
         run.task = drv.loop.create_task(proc.step_until_terminated())
         drv.on_slot = lambda slot: run.sample(slot)
